@@ -32,8 +32,13 @@ FORBIDDEN = re.compile(
 
 
 def hx(b):
-    """bytes -> protocol token"""
-    return b.hex() if b else "-"
+    """bytes -> protocol token; anything that is not a byte string (an implementation handing back None, a sentinel object,
+    a str …) becomes a token no model output can equal, so that the comparison fails instead of the adapter"""
+    if isinstance(b, (bytes, bytearray, memoryview)):
+        return bytes(b).hex() if b else "-"
+    if b is None or b == b"":
+        return "-"
+    return "!" + type(b).__name__
 
 
 def unhx(s):
